@@ -299,6 +299,11 @@ def paths_imply(fm: FuncModel, start: N, target: N, goal, translator, names_kill
             w = fm.node_writes(n) if n.kind in ("stmt", "test", "for") else set()
             if w:
                 facts = [(f, r) for f, r in facts if not (r & {x.partition("@")[0] for x in w} or r & w)]
+            if n.kind == "stmt" and isinstance(n.ast, ast.Assign) and len(n.ast.targets) == 1 and isinstance(n.ast.targets[0], ast.Name) \
+                    and isinstance(n.ast.value, ast.Constant) and isinstance(n.ast.value.value, bool):
+                # a Boolean flag set on the path is a fact until the flag is written again
+                fl = logic.B("T:" + n.ast.targets[0].id)
+                facts.append((fl if n.ast.value.value else logic.Not(fl), {n.ast.targets[0].id}))
             if n.kind == "branch" and n.test is not None:
                 if canon:
                     tnode = fm.cfg.nodes[next(iter(fm.cfg.g.predecessors(n.id)))]
